@@ -86,7 +86,7 @@ impl Prop for C13 {
     }
     fn rule(&self) -> &'static str {
         "the 22 documented circle drawings (fixed copy in /verif/catalog, compared with the live table) x offsets 0..8 x 0..6 plus three far corners (thorough: all 0..60 x 0..40) \
-         x {alone, with a box two columns to the right, with a line of text two rows below, with an ASCII / double-width label to the left on its middle row, with a word above it ending at each of 6 columns around its first cell with 1 or 2 blank rows between}: exactly one circle and nothing else for the drawing; cx-r / cx+r = the drawing's horizontal extent; \
+         x {alone, with a box two columns to the right, with a line of text two rows below, with an ASCII / double-width label to the left on its middle row, with a word above it ending at each of 6 columns around its first cell with 1 or 2 blank rows between, with a table of 20 one-letter entries to its right on each of its rows}: exactly one circle and nothing else for the drawing; cx-r / cx+r = the drawing's horizontal extent; \
          r = (n-1)/2 cells (n/2 when the left-most cell is a slash); every character cell intersects the annulus of half-width 1.25 cell widths; the unrelated content renders as it does alone. \
          distinct_nontrivial = distinct (catalogue entry, context) outcomes that produced a circle"
     }
@@ -118,7 +118,7 @@ impl Prop for C13 {
                 let n = shapes::catalog().len();
                 for i in 0..n {
                     for &(x, y) in &offs {
-                        for ctx in 0..(3 + 2 + 12) {
+                        for ctx in 0..(3 + 2 + 12 + 1) {
                             f(Case::sn("", vec![i as i64, x as i64, y as i64, ctx]));
                         }
                     }
@@ -246,6 +246,20 @@ impl Prop for C13 {
             3 | 4 => {
                 // a double-width label to the left of the drawing, on its middle row, two columns away
                 return self.check_left_label(cx, art, ox, oy, ctx == 4, i);
+            }
+            17 => {
+                // a table of 20 one-letter entries to the right of the drawing on each of its rows
+                let (w, _h) = enumr::extent(art);
+                let mut rows: Vec<String> = vec![String::new(); oy];
+                let mut ctx_rows: Vec<String> = vec![String::new(); oy];
+                for (r, l) in art.split('\n').enumerate() {
+                    let n = l.chars().count();
+                    let letters: String = (0..20).map(|k| format!("{} ", char::from(b'a' + ((r * 7 + k) % 26) as u8))).collect();
+                    rows.push(format!("{}{}{}   {}", " ".repeat(ox), l, " ".repeat(w - n), letters.trim_end()));
+                    ctx_rows.push(format!("{}{}   {}", " ".repeat(ox), " ".repeat(w), letters.trim_end()));
+                }
+                let desc = format!("catalogue circle #{} at ({},{}) with a table of 20 one-letter entries to its right on each of its rows", i, ox, oy);
+                return self.judge_with_context(cx, &rows.join("\n"), &ctx_rows.join("\n"), &desc, i);
             }
             5..=16 => {
                 // a word above the drawing (one or two blank rows between), ending at every column around the drawing's first top-row cell
